@@ -374,21 +374,10 @@ class Mirror:
                 return "dup"
             if o.get("sh") == 9 or o.get("abspath"):
                 return "emptysheet_or_abspath"
-            prev = self.find_ref(own, o["n"])
-            if prev and prev["val"] == v and self.tab.get((m, v)) == [prev["id"]] and \
-                    (self.get_spec(m, v) or k != "assign"):
-                return "rebind_same"
-            if o["s"] is not None and (m, o["s"]) in self.spaces:
-                vis = prev or self.first_definer(m, o["n"], self.mro(self.bases, m, o["s"]))
-                if vis and self.stale_derived(m, o["s"], o["n"]):
-                    return "stale_derived"
+            # rebind_same and stale_derived are repaired in /repo: their former triggers are generated
         if k == "update":
             if o["old"] != o["new"] and (m, o["new"]) in self.tab:
                 return "update_bound"
-            for rid in self.tab.get((m, o["old"]), []):
-                r = next(x for x in self.refs if x["id"] == rid)
-                if self.stale_derived(m, r["own"][1], r["name"]):
-                    return "stale_derived"
         if k == "removebase":
             s, b = o["s"], o["b"]
             old = self.bases_of(self.bases, m, s)
